@@ -265,9 +265,11 @@ def run(case, ctx):
             wd.write_cmd(cmd['exit'], skip=fi)
             desc = 'output file %s no longer produced' % fl['name']
         else:
-            new_exit = (cmd['exit'] + 1 + m['k']) % 5
+            new_exit = (max(cmd['exit'], 0) + 1 + m['k']) % 5
             if new_exit == cmd['exit']:
                 new_exit = (new_exit + 1) % 5
+            if cmd['exit'] < 0 and m['k'] % 2:
+                new_exit = -15 if cmd['exit'] == -9 else -9
             wd.write_cmd(new_exit)
             expect_test = 'test_exit_code'
             desc = 'exit status %d -> %d' % (cmd['exit'], new_exit)
